@@ -33,6 +33,8 @@ SIGABRT = 6
 ENTRIES = ["arc_sized", "arc_slice", "arc_dyn", "thin", "offset_clone", "offset_clone_arc",
            "borrow_clone_arc", "union_first", "union_second",
            "with_arc_offset", "with_arc_thin", "with_arc_borrow",
+           # over-aligned payloads (data offset 16 / 64: the count is not the word in front of the value)
+           "arc_sized_oa", "offset_clone_oa", "offset_clone_arc_oa", "borrow_clone_arc_oa", "union_first_oa", "union_second_oa",
            "asw_arc_load_full", "asw_thin_load_full"]       # handles produced by arc-swap (RefCnt::inc), both configs have the feature
 STARTS = [1, 2, 2 ** 31, 2 ** 32, ISIZE_MAX - 1, ISIZE_MAX, ISIZE_MAX + 1, ISIZE_MAX + 2,
           USIZE_MAX - 1, USIZE_MAX]
